@@ -51,6 +51,11 @@ class Gen:
         r = self.r
         k = r.randint(2, 6)
         names = [f"S{i}" for i in range(k)]
+        if r.random() < 0.4:
+            # names that are string prefixes of one another (the shipped algorithms use U, U', U'†)
+            for i in range(1, k):
+                if r.random() < 0.4:
+                    names[i] = names[i - 1] + r.choice(["'", "†", "_x"])
         inputs = self.forced_inputs or (["A", "B"] if r.random() < 0.6 else ["A"])
         start, marker = {}, {}
         for n in names:
